@@ -93,7 +93,12 @@ func c06Tree(r *rand.Rand, root, name string, shape string, big int) (dirs, all 
 		must(os.Symlink("tdir", filepath.Join(root, rel, "ldir")))
 		must(os.Symlink("nowhere", filepath.Join(root, rel, "ldangling")))
 		must(os.Symlink("tdir/inner.bin", filepath.Join(root, rel, "linner")))
-		all = append(all, rel+"/lfile", rel+"/ldir", rel+"/ldangling", rel+"/linner", rel+"/ldir/inner.bin")
+		// links that lead nowhere for reasons other than a missing name: through a regular file
+		// (ENOTDIR), to themselves (ELOOP), to a name that is too long (ENAMETOOLONG)
+		must(os.Symlink("target.bin/child", filepath.Join(root, rel, "lthroughfile")))
+		must(os.Symlink("lself", filepath.Join(root, rel, "lself")))
+		must(os.Symlink(strings.Repeat("a", 300), filepath.Join(root, rel, "ltoolong")))
+		all = append(all, rel+"/lfile", rel+"/ldir", rel+"/ldangling", rel+"/linner", rel+"/ldir/inner.bin", rel+"/lthroughfile", rel+"/lself", rel+"/ltoolong")
 	case "random":
 		n := tree.Gen(r, tree.GenOpt{MaxDepth: 3, MaxEntries: 9, MaxSize: 70000, NameLen: 24, EmptyFiles: true})
 		must(tree.MaterializeRoot(base, n))
